@@ -799,6 +799,7 @@ func runC16(p *core.Prog, r *core.Report) {
 	})
 	r.Guard("C16.R1", "wasmCall", "where the deterministic marker is attached", func() { checkWasmCallClassification(p, r, "C16.R1") })
 	r.Guard("C16.R4", "OnStreamTerminated", "graceful end only", func() { checkOnStreamTerminated(p, r, "C16.R4") })
+	r.Guard("C16.R4", "stream-end", "failed step never classified EOF", func() { checkStreamEndClassification(p, r, "C16.R4") })
 	r.MinInstances("C16.R1", 8)
 	r.MinInstances("C16.R2", 16)
 	r.MinInstances("C16.R3", 8)
